@@ -3,6 +3,9 @@
 spec/Placement.tla is the placement rule as a function of the id SET, the replica count and
 two observed hashes (FNV partition, jump hash), with the statement's properties (size,
 distinctness, ring-slice shape, helper agreement) model-checked for the rule itself (M).
+(G) spec/PlacementHist.tla generates membership HISTORIES (join / leave / "compute owners
+now") that TestC20 replays on real cluster objects, recording the owners at every observation
+point; they must equal those of a freshly built cluster of the same id set.
 Binding B: harness/bind/clusterb TestC20 builds real clusters for every id set (<= 5 quick,
 <= 8 thorough) x replicas 0..9, by every join order (<= 4 quick, <= 6 thorough; seeded
 samples above), by histories with leaves and re-joins, through addNodeBasicSorted and through
@@ -42,8 +45,13 @@ def run(ctx):
     if m.violation:
         raise vlib.Inconclusive("the placement rule of the specification violates its own properties:\n" + m.violation[:2000])
 
+    # (G) membership histories (join / leave / "compute owners now") from PlacementHist
+    if thorough:
+        h = ctx.generate("PlacementHist", "C20_hist_bfs", mode="bfs", timeout=900)
+    else:
+        h = ctx.generate("PlacementHist", "C20_hist_sim", mode="simulate", num=90, depth=8, timeout=600)
     base = os.path.join(ctx.scratch, "c20trace")
-    res = ctx.drive(ct.PKG, "TestC20", env={"VERIF_TRACE_OUT": base}, label="C20/record", timeout=1500)
+    res = ctx.drive(ct.PKG, "TestC20", beh=h.behaviours, env={"VERIF_TRACE_OUT": base}, label="C20/record", timeout=1500)
     if res is None:
         return
     ctx.validated -= int(res.get("validated", 0))  # counted when TLC accepts the events, not when they are recorded
